@@ -13,7 +13,7 @@ EXPLANATION = 'structure theorem about the model of make_slp + abstract two-stag
 
 
 def scenarios(seed, tier):
-    n = 250 if tier == 'quick' else 2500
+    n = 500 if tier == 'quick' else 3000
     return S.cases(n, seed)
 
 
